@@ -41,10 +41,10 @@ func (c CtrlSpec) identity() *refctl.Identity {
 }
 
 type Op struct {
-	Kind  string      `json:"op"`             // pair | unpair | add | set-local | put
-	Ctrl  int         `json:"ctrl"`           // the controller that is paired / removed / added
-	Via   int         `json:"via"`            // the controller whose verified connection carries the request
-	Acc   int         `json:"acc,omitempty"`  // target characteristic of a value change: positions in the built set
+	Kind  string      `json:"op"`            // pair | unpair | add | set-local | put
+	Ctrl  int         `json:"ctrl"`          // the controller that is paired / removed / added
+	Via   int         `json:"via"`           // the controller whose verified connection carries the request
+	Acc   int         `json:"acc,omitempty"` // target characteristic of a value change: positions in the built set
 	Svc   int         `json:"svc,omitempty"`
 	Char  int         `json:"char,omitempty"`
 	Value interface{} `json:"value,omitempty"`
@@ -83,14 +83,14 @@ type EntObs struct {
 }
 
 type Obs struct {
-	After           string            `json:"after"` // start | <op kind> | stop
-	Op              int               `json:"op"`    // index of the op (-1 for start / stop)
-	TXT             map[string]string `json:"txt"`
-	UUID            string            `json:"uuid_file"`
-	Version         string            `json:"version_file"`
-	ConfigHash      string            `json:"configHash_file"`
-	Entities        []EntObs          `json:"entities"`
-	EntErr          string            `json:"entities_error,omitempty"`
+	After      string            `json:"after"` // start | <op kind> | stop
+	Op         int               `json:"op"`    // index of the op (-1 for start / stop)
+	TXT        map[string]string `json:"txt"`
+	UUID       string            `json:"uuid_file"`
+	Version    string            `json:"version_file"`
+	ConfigHash string            `json:"configHash_file"`
+	Entities   []EntObs          `json:"entities"`
+	EntErr     string            `json:"entities_error,omitempty"`
 	// canonical value-free texts of the attribute database (own marshalling / GET /accessories)
 	StructureText string `json:"structure_text,omitempty"`
 	ServedText    string `json:"served_text,omitempty"`
@@ -395,7 +395,7 @@ func runInChild(spec RunSpec, tag string) (RunResult, error) {
 
 type RunPlan struct {
 	Mutations []mutation `json:"mutations_since_previous_run"`
-	Recipe    Recipe     `json:"-"`
+	Recipe    Recipe     `json:"recipe"`
 	Ops       []Op       `json:"-"`
 	OpsText   []string   `json:"ops"`
 	Paired    []int      `json:"-"` // at the start of the run, by the model
@@ -680,6 +680,7 @@ type runSummary struct {
 	Mutations  []mutation        `json:"mutations_since_previous_run,omitempty"`
 	Ops        []string          `json:"ops,omitempty"`
 	Accs       int               `json:"accessories"`
+	Recipe     Recipe            `json:"recipe"`
 	StructHash string            `json:"structure_fingerprint"`
 	CNum       string            `json:"c#_at_start"`
 	Trace      []string          `json:"trace"` // after-what: sf / c# / controllers stored
@@ -757,7 +758,7 @@ func runHistory(h *History) {
 			res = execRun(spec)
 		}
 		run.Count("runs", 1)
-		sum := runSummary{Run: k, Mutations: plan.Mutations, Ops: plan.OpsText, Accs: len(plan.Recipe.Accs)}
+		sum := runSummary{Run: k, Mutations: plan.Mutations, Ops: plan.OpsText, Accs: len(plan.Recipe.Accs), Recipe: plan.Recipe}
 		if res.Panic != "" {
 			ctx.sums = append(ctx.sums, sum)
 			ctx.violate("start:panic:"+vf.PanicSite(res.Panic, "brutella/hc"), "NewIPTransport / Start panicked", map[string]interface{}{"panic": res.Panic})
